@@ -53,7 +53,8 @@ func c02run(c *hx.Ctx, cs c02case) error {
 			o.Onboard = true
 		})
 	} else {
-		p, err = pairfx.NewPair(cs.Seed, true, 8)
+		// real embedded contracts (deploy / call / terminate through the real VM): gas beyond the size gas, receipts
+		p, err = pairfx.NewPairWith(cs.Seed, true, 8, func(w *chainfx.World, o *chainfx.HistoryOpts) { o.Contracts = cs.Seed%2 == 0 })
 	}
 	if err != nil {
 		return err
